@@ -143,7 +143,7 @@ theorem encode_drop_off (f : Frm) : (encode f).drop (6 + f.hdrLen) = f.payload :
 theorem encode_hdr (f : Frm) : ((encode f).drop 6).take f.hdrLen = propHdr f.props := by
   rw [encode_drop6]; exact take_left' _ _ _ rfl
 
-def ElemsOK (xs : List Bytes) : Prop := ∀ x ∈ xs, 0 < x.length ∧ x.length < 2 ^ 32
+def ElemsOK (xs : List Bytes) : Prop := ∀ x ∈ xs, x.length < 2 ^ 32
 
 theorem encElems_cons (x : Bytes) (xs : List Bytes) : encElems (x :: xs) = le32 x.length ++ (x ++ encElems xs) := by
   simp [encElems, List.flatMap_cons]
@@ -169,9 +169,9 @@ theorem parseElems_enc (xs : List Bytes) (h : ElemsOK xs) (fuel : Nat)
     cases fuel with
     | zero => rw [hlen] at hf; omega
     | succ n =>
-      have h1 : ¬ (le32 x.length ++ (x ++ encElems xs)).length ≤ 4 := by rw [hlen]; omega
+      have h1 : ¬ (le32 x.length ++ (x ++ encElems xs)).length < 4 := by rw [hlen]; omega
       have h2 : readLE ((le32 x.length ++ (x ++ encElems xs)).take 4) = x.length := by
-        rw [take_left' _ _ 4 (le32_length _)]; exact readLE_le32 _ hx.2
+        rw [take_left' _ _ 4 (le32_length _)]; exact readLE_le32 _ hx
       have h3 : (le32 x.length ++ (x ++ encElems xs)).drop (4 + x.length) = encElems xs := by
         rw [← List.drop_drop, drop_left' _ _ 4 (le32_length _), drop_left' _ _ _ rfl]
       have h4 : ((le32 x.length ++ (x ++ encElems xs)).drop 4).take x.length = x := by
@@ -179,7 +179,7 @@ theorem parseElems_enc (xs : List Bytes) (h : ElemsOK xs) (fuel : Nat)
       unfold parseElems
       rw [if_neg h1]
       simp only [h2]
-      rw [if_neg (by omega), if_neg (by rw [hlen]; omega), h3, h4, ih hxs n (by rw [hlen] at hf; omega)]
+      rw [if_neg (by rw [hlen]; omega), h3, h4, ih hxs n (by rw [hlen] at hf; omega)]
 
 theorem forall_uint8 (P : UInt8 → Prop) (h : ∀ n, n < 256 → P (UInt8.ofNat n)) (f : UInt8) : P f := by
   have := h f.toNat (UInt8.toNat_lt f)
